@@ -76,6 +76,7 @@ def run_segment(ops: list, disk: str, segment: int = 0) -> dict:  # noqa: C901, 
     import ampform  # noqa: PLC0415
 
     builders: dict[int, dict] = {}
+    dumped: dict[str, object] = {}
     events: list[dict] = []
     caches = zc.ampform_caches()
     cache_names = sorted(caches)
@@ -94,7 +95,7 @@ def run_segment(ops: list, disk: str, segment: int = 0) -> dict:  # noqa: C901, 
                     reaction = zc.fresh_copy(reaction)
                 builders[op["b"]] = {"builder": ampform.get_builder(reaction), "rx": op["rx"],
                                      "last": None, "dirty": True, "model": None}
-            elif b is None:
+            elif b is None and kind not in ("evict", "load", "dump_expr", "load_expr"):
                 ev["skipped"] = "no builder"
             elif kind == "align":
                 b["builder"].config.spin_alignment = zc.make_alignment(op["v"])
@@ -195,11 +196,70 @@ def run_segment(ops: list, disk: str, segment: int = 0) -> dict:  # noqa: C901, 
                     path = os.path.join(disk, op["file"])
                     with open(path, "wb") as f:
                         pickle.dump(model, f)
-                    loaded_same = None
-                    ev.update(file=op["file"], digests=zc.model_digests(model), size=os.path.getsize(path))
+                    dumped[op["file"]] = model
+                    ev.update(file=op["file"], digests=zc.model_digests(model), size=os.path.getsize(path),
+                              key=zc.config_key(b["builder"], b["rx"]))
                     if op.get("fingerprint"):
                         ev["fingerprint"] = fingerprint(model)
-                    del loaded_same
+            elif kind == "load":
+                path = os.path.join(disk, op["file"])
+                if not os.path.exists(path):
+                    ev["skipped"] = "no file"
+                else:
+                    ev["file"] = op["file"]
+                    try:
+                        with open(path, "rb") as f:
+                            loaded = pickle.load(f)  # noqa: S301
+                    except Exception as exc:  # noqa: BLE001
+                        ev["load_error"] = f"{type(exc).__name__}: {str(exc)[:120]}"
+                    else:
+                        ev["digests"] = zc.model_digests(loaded)
+                        if op.get("fingerprint"):
+                            ev["fingerprint"] = fingerprint(loaded)
+                        original = dumped.get(op["file"])
+                        if original is not None:
+                            ev["same_process"] = True
+                            for attr in zc.MODEL_ATTRS:
+                                if not getattr(loaded, attr) == getattr(original, attr):
+                                    ev["eq_fail"] = attr
+                                    ev["eq_detail"] = str(canon.first_difference(
+                                        getattr(loaded, attr), getattr(original, attr)))[:300]
+                                    break
+                            if loaded != original and "eq_fail" not in ev:
+                                ev["eq_fail"] = "model"
+            elif kind == "dump_expr":
+                from . import z_exprs  # noqa: PLC0415
+
+                entry = z_exprs.pool_entry(op["e"])
+                path = os.path.join(disk, op["file"])
+                with open(path, "wb") as f:
+                    pickle.dump(entry["expr"], f)
+                dumped[op["file"]] = entry
+                ev.update(file=op["file"], name=entry["name"], cls=entry["cls"], unfolded=entry["unfolded"],
+                          digest=canon.ndigest(entry["expr"]) if entry["unfolded"] else canon.digest(entry["expr"]))
+            elif kind == "load_expr":
+                path = os.path.join(disk, op["file"])
+                if not os.path.exists(path):
+                    ev["skipped"] = "no file"
+                else:
+                    ev["file"] = op["file"]
+                    try:
+                        with open(path, "rb") as f:
+                            loaded = pickle.load(f)  # noqa: S301
+                    except Exception as exc:  # noqa: BLE001
+                        ev["load_error"] = f"{type(exc).__name__}: {str(exc)[:120]}"
+                    else:
+                        ev["digest_plain"] = canon.digest(loaded)
+                        ev["digest_n"] = canon.ndigest(loaded)
+                        entry = dumped.get(op["file"])
+                        if entry is not None:
+                            ev["same_process"] = True
+                            if not entry["unfolded"] and not loaded == entry["expr"]:
+                                ev["eq_fail"] = entry["cls"]
+                                ev["eq_detail"] = str(canon.first_difference(loaded, entry["expr"]))[:300]
+                            if hash(loaded) != hash(entry["expr"]) and not entry["unfolded"]:
+                                ev.setdefault("eq_fail", entry["cls"])
+                                ev.setdefault("eq_detail", "hash differs")
             else:
                 ev["skipped"] = f"unknown op {kind}"
         except Exception as exc:  # noqa: BLE001  configuration ops may legitimately fail
